@@ -31,7 +31,8 @@ def describe(t: dict, r: dict):
     if r["clause"] == "ReparseClean":
         rule = fs.culprit_by_single_rule(t, _bad)
         crash = next((e.get("crash") for e in t["events"] if e["ev"] == "Reparse" and e.get("crash")), None)
-        sig = {"rule": rule, "templated": fs.is_templated(case), "dialect": case["dialect"] if not case.get("configs") else "case",
+        how, kinds = fs.lex_signature(t)
+        sig = {"rule": rule, "template": fs.template_kind(case), "lex": f"{how}:{kinds}" if kinds else how,
                "reparse": "raises:" + crash if crash else "errors"}
         what = (f"clean input becomes unparsable after fix (rules={case['rules']}, dialect={case['dialect']}, culprit {rule}): "
                 f"{case['sql']!r} -> {t.get('fixed')!r}")
